@@ -1,11 +1,14 @@
-(* C12 - Serialization round-trips the activity state and is canonical. Theorems only. saver_ok = the saver is active with a state below n, or inactive (manual activation only). *)
+(* C12 - Serialization round-trips the activity state and is canonical. Theorems only. saver_ok = the saver is active
+   with a state below n, or inactive (manual activation only). *)
 From Coq Require Import List Arith Bool NArith.
 From FFSM2 Require Import Model.TaskList Model.BitArray Model.BitStream Model.Plan Model.Ancestors Model.Machine
   Proofs.BitArrayProofs Proofs.MachineFrame Proofs.MachinePlan Proofs.MachineLife Proofs.GuardProofs Proofs.CycleProofs Proofs.PlanStep
-  Proofs.SerialProofs Proofs.LogProofs Proofs.MachineTop.
+  Proofs.SerialProofs Proofs.LogProofs Proofs.MachineTop Model.Multi Generated.InitFacts Proofs.ConstructProofs Proofs.LifeMonitor Proofs.ActivationRounds Proofs.IndexSafety Proofs.FeatureProofs.
 Import ListNotations.
 
-(* loading what any instance of the same type saved, into any loader state: the loader ends with the saver's activity, by exactly the lifecycle change needed (none | exit;enter | reenter | root enter;enter | exit;root exit) - change contains no guard event *)
+(* loading what any instance of the same type saved, into any loader state: the loader ends with the saver's activity,
+   by exactly the lifecycle change needed (none | exit;enter | reenter | root enter;enter | exit;root exit) - change
+   contains no guard event *)
 Theorem C12_load_roundtrip :
   forall (P : Type) (cfg : config) (orc : oracle P) (PI : plan_data P -> Prop),
          plan_inv_ok P cfg PI ->
@@ -29,7 +32,8 @@ Theorem C12_change_has_no_guards :
 Proof. exact (change_only_life). Qed.
 Print Assumptions C12_change_has_no_guards.
 
-(* save() is a function of (activation mode, n, active state) only and does not modify the machine (it takes the core and returns bytes) *)
+(* save() is a function of (activation mode, n, active state) only and does not modify the machine (it takes the core
+   and returns bytes) *)
 Theorem C12_save_is_pure :
   forall (P : Type) (cfg : config) (c : core P),
          save P cfg c = save_bytes (c_manual cfg) (c_n cfg) (active P c).
